@@ -1,5 +1,6 @@
 import SMD.Model.Value
 import SMD.Model.Path
+set_option linter.unusedSimpArgs false
 namespace SMD
 
 theorem cmpInt_self (a : Int) : cmpInt a a = .eq := by simp [cmpInt]
@@ -22,5 +23,354 @@ theorem Value.compareFields_self : ∀ l : List (String × Value), Value.compare
   | [] => by simp [Value.compareFields]
   | (k, v) :: as => by simp [Value.compareFields, cmpStr_self, Value.compare_self v, Value.compareFields_self as]
 end
+
+
+def TrPack (x y z : Ordering) : Prop :=
+  (x = .lt → y ≠ .gt → z = .lt) ∧ (x ≠ .gt → y = .lt → z = .lt) ∧ (x = .eq → y = .eq → z = .eq)
+
+theorem TrPack.then {x y z x' y' z' : Ordering} (h : TrPack x y z) (h' : TrPack x' y' z') :
+    TrPack (x.then x') (y.then y') (z.then z') := by
+  unfold TrPack at *
+  cases x <;> cases y <;> cases z <;> simp_all [Ordering.then]
+
+theorem TrPack.le {x y z : Ordering} (h : TrPack x y z) : x ≠ .gt → y ≠ .gt → z ≠ .gt := by
+  unfold TrPack at *
+  cases x <;> cases y <;> cases z <;> simp_all
+
+theorem scale_pos : 0 < scale := by unfold scale; exact Int.pow_pos (by decide)
+
+theorem cmpInt_scale (i j : Int) : cmpInt (i * scale) (j * scale) = cmpInt i j := by
+  have h := scale_pos
+  have h1 : i * scale < j * scale ↔ i < j := Int.mul_lt_mul_right h
+  have h2 : j * scale < i * scale ↔ j < i := Int.mul_lt_mul_right h
+  simp only [cmpInt, gt_iff_lt, h1, h2]
+
+theorem cmpInt_tr (x y z : Int) : TrPack (cmpInt x y) (cmpInt y z) (cmpInt x z) := by
+  unfold TrPack cmpInt
+  refine ⟨?_, ?_, ?_⟩ <;> (repeat' split) <;> simp <;> omega
+
+theorem cmpStr_tr (x y z : String) : TrPack (cmpStr x y) (cmpStr y z) (cmpStr x z) := by
+  unfold TrPack cmpStr
+  refine ⟨?_, ?_, ?_⟩
+  · intro h1 h2; exact Std.TransCmp.lt_of_lt_of_isLE h1 (by cases h : compare y z <;> simp_all)
+  · intro h1 h2; exact Std.TransCmp.lt_of_isLE_of_lt (by cases h : compare x y <;> simp_all) h2
+  · intro h1 h2; exact Std.TransCmp.eq_trans h1 h2
+
+theorem cmpBool_tr (x y z : Bool) : TrPack (cmpBool x y) (cmpBool y z) (cmpBool x z) := by
+  cases x <;> cases y <;> cases z <;> simp [TrPack, cmpBool]
+
+theorem cmpInt_swap (a b : Int) : cmpInt b a = (cmpInt a b).swap := by
+  unfold cmpInt; (repeat' split) <;> simp <;> omega
+theorem cmpStr_swap (a b : String) : cmpStr b a = (cmpStr a b).swap := by
+  unfold cmpStr; exact Std.OrientedCmp.eq_swap
+theorem cmpBool_swap (a b : Bool) : cmpBool b a = (cmpBool a b).swap := by
+  cases a <;> cases b <;> simp [cmpBool]
+
+theorem Value.compareList_cons (a b : Value) (as bs : List Value) :
+    Value.compareList (a :: as) (b :: bs) = (Value.compare a b).then (Value.compareList as bs) := by
+  rw [Value.compareList]; cases Value.compare a b <;> rfl
+
+theorem Value.compareFields_cons (k k' : String) (v v' : Value) (as bs : List (String × Value)) :
+    Value.compareFields ((k, v) :: as) ((k', v') :: bs)
+      = (cmpStr k k').then ((Value.compare v v').then (Value.compareFields as bs)) := by
+  rw [Value.compareFields]; cases cmpStr k k' <;> cases Value.compare v v' <;> rfl
+
+mutual
+theorem Value.compare_swap : ∀ a b : Value, Value.compare b a = (Value.compare a b).swap
+  | .null, b => by cases b <;> simp [Value.compare]
+  | .bool x, b => by cases b <;> simp [Value.compare, cmpBool_swap x]
+  | .int i, b => by cases b <;> simp [Value.compare, cmpInt_swap i, cmpInt_swap (i * scale)]
+  | .float u z, b => by cases b <;> simp [Value.compare, cmpInt_swap u]
+  | .str s, b => by cases b <;> simp [Value.compare, cmpStr_swap s]
+  | .list l, b => by cases b <;> simp [Value.compare, Value.compareList_swap l]
+  | .map m, b => by cases b <;> simp [Value.compare, Value.compareFields_swap m]
+theorem Value.compareList_swap : ∀ a b : List Value, Value.compareList b a = (Value.compareList a b).swap
+  | [], b => by cases b <;> simp [Value.compareList]
+  | a :: as, [] => by simp [Value.compareList]
+  | a :: as, b :: bs => by
+    simp [Value.compareList_cons, Ordering.swap_then, Value.compare_swap a b, Value.compareList_swap as bs]
+theorem Value.compareFields_swap : ∀ a b : List (String × Value),
+    Value.compareFields b a = (Value.compareFields a b).swap
+  | [], b => by cases b <;> simp [Value.compareFields]
+  | _ :: _, [] => by simp [Value.compareFields]
+  | (k, v) :: as, (k', v') :: bs => by
+    simp [Value.compareFields_cons, Ordering.swap_then, cmpStr_swap k k', Value.compare_swap v v',
+      Value.compareFields_swap as bs]
+end
+
+
+/-! ### transitivity package for values -/
+
+theorem TrPack.lt_left {y z : Ordering} : TrPack .lt y z ↔ (y ≠ .gt → z = .lt) := by
+  unfold TrPack; cases y <;> cases z <;> simp
+theorem TrPack.gt_left {y z : Ordering} : TrPack .gt y z ↔ True := by
+  unfold TrPack; simp
+theorem TrPack.gt_mid {x z : Ordering} : TrPack x .gt z ↔ True := by
+  unfold TrPack; simp
+theorem TrPack.lt_lt {x : Ordering} : TrPack x .lt .lt ↔ True := by
+  unfold TrPack; simp
+
+theorem cmpInt_tr_ab (i j u : Int) :
+    TrPack (cmpInt i j) (cmpInt (j * scale) u) (cmpInt (i * scale) u) := by
+  rw [← cmpInt_scale i j]; exact cmpInt_tr _ _ _
+theorem cmpInt_tr_bc (u i j : Int) :
+    TrPack (cmpInt u (i * scale)) (cmpInt i j) (cmpInt u (j * scale)) := by
+  rw [← cmpInt_scale i j]; exact cmpInt_tr _ _ _
+theorem cmpInt_tr_ac (i u j : Int) :
+    TrPack (cmpInt (i * scale) u) (cmpInt u (j * scale)) (cmpInt i j) := by
+  rw [← cmpInt_scale i j]; exact cmpInt_tr _ _ _
+
+mutual
+theorem Value.compare_tr : ∀ a b c : Value,
+    TrPack (Value.compare a b) (Value.compare b c) (Value.compare a c)
+  | .null, b, c => by cases b <;> cases c <;> simp [Value.compare, TrPack]
+  | .bool x, b, c => by
+    cases b <;> cases c <;> simp [Value.compare, TrPack.lt_left, TrPack.gt_left, TrPack.gt_mid, TrPack.lt_lt, cmpBool_tr]
+  | .int i, b, c => by
+    cases b <;> cases c <;> simp [Value.compare, TrPack.lt_left, TrPack.gt_left, TrPack.gt_mid, TrPack.lt_lt,
+      cmpInt_tr, cmpInt_tr_ab, cmpInt_tr_bc, cmpInt_tr_ac]
+  | .float u z, b, c => by
+    cases b <;> cases c <;> simp [Value.compare, TrPack.lt_left, TrPack.gt_left, TrPack.gt_mid, TrPack.lt_lt,
+      cmpInt_tr, cmpInt_tr_ab, cmpInt_tr_bc, cmpInt_tr_ac]
+  | .str s, b, c => by
+    cases b <;> cases c <;> simp [Value.compare, TrPack.lt_left, TrPack.gt_left, TrPack.gt_mid, TrPack.lt_lt, cmpStr_tr]
+  | .list l, b, c => by
+    cases b <;> cases c <;> simp [Value.compare, TrPack.lt_left, TrPack.gt_left, TrPack.gt_mid, TrPack.lt_lt, Value.compareList_tr l]
+  | .map m, b, c => by
+    cases b <;> cases c <;> simp [Value.compare, TrPack.lt_left, TrPack.gt_left, TrPack.gt_mid, TrPack.lt_lt, Value.compareFields_tr m]
+theorem Value.compareList_tr : ∀ a b c : List Value,
+    TrPack (Value.compareList a b) (Value.compareList b c) (Value.compareList a c)
+  | [], b, c => by cases b <;> cases c <;> simp [Value.compareList, TrPack]
+  | a :: as, [], c => by cases c <;> simp [Value.compareList, TrPack]
+  | a :: as, b :: bs, [] => by simp [Value.compareList, TrPack]
+  | a :: as, b :: bs, c :: cs => by
+    simp only [Value.compareList_cons]
+    exact (Value.compare_tr a b c).then (Value.compareList_tr as bs cs)
+theorem Value.compareFields_tr : ∀ a b c : List (String × Value),
+    TrPack (Value.compareFields a b) (Value.compareFields b c) (Value.compareFields a c)
+  | [], b, c => by cases b <;> cases c <;> simp [Value.compareFields, TrPack]
+  | _ :: _, [], c => by cases c <;> simp [Value.compareFields, TrPack]
+  | _ :: _, _ :: _, [] => by simp [Value.compareFields, TrPack]
+  | (k, v) :: as, (k', v') :: bs, (k'', v'') :: cs => by
+    simp only [Value.compareFields_cons]
+    exact (cmpStr_tr k k' k'').then ((Value.compare_tr v v' v'').then (Value.compareFields_tr as bs cs))
+end
+
+
+/-! ### compare = eq ↔ equals -/
+
+theorem cmpInt_eq_iff (a b : Int) : cmpInt a b = .eq ↔ a = b := by
+  unfold cmpInt; (repeat' split) <;> simp <;> omega
+theorem cmpStr_eq_iff (a b : String) : cmpStr a b = .eq ↔ a = b := by
+  unfold cmpStr; exact Std.LawfulEqCmp.compare_eq_iff_eq
+theorem cmpBool_eq_iff (a b : Bool) : cmpBool a b = .eq ↔ a = b := by
+  cases a <;> cases b <;> simp [cmpBool]
+theorem mul_scale_inj (i j : Int) : i * scale = j * scale ↔ i = j :=
+  Int.mul_eq_mul_right_iff (Int.ne_of_gt scale_pos)
+
+mutual
+theorem Value.compare_eq_iff : ∀ a b : Value, Value.compare a b = .eq ↔ Value.equals a b = true
+  | .null, b => by cases b <;> simp [Value.compare, Value.equals]
+  | .bool x, b => by cases b <;> simp [Value.compare, Value.equals, cmpBool_eq_iff]
+  | .int i, b => by cases b <;> simp [Value.compare, Value.equals, cmpInt_eq_iff]
+  | .float u z, b => by cases b <;> simp [Value.compare, Value.equals, cmpInt_eq_iff]
+  | .str s, b => by cases b <;> simp [Value.compare, Value.equals, cmpStr_eq_iff]
+  | .list l, b => by cases b <;> simp [Value.compare, Value.equals, Value.compareList_eq_iff l]
+  | .map m, b => by cases b <;> simp [Value.compare, Value.equals, Value.compareFields_eq_iff m]
+theorem Value.compareList_eq_iff : ∀ a b : List Value,
+    Value.compareList a b = .eq ↔ Value.equalsList a b = true
+  | [], b => by cases b <;> simp [Value.compareList, Value.equalsList]
+  | _ :: _, [] => by simp [Value.compareList, Value.equalsList]
+  | a :: as, b :: bs => by
+    simp [Value.compareList_cons, Value.equalsList, Ordering.then_eq_eq, Value.compare_eq_iff a b,
+      Value.compareList_eq_iff as bs]
+theorem Value.compareFields_eq_iff : ∀ a b : List (String × Value),
+    Value.compareFields a b = .eq ↔ Value.equalsFields a b = true
+  | [], b => by cases b <;> simp [Value.compareFields, Value.equalsFields]
+  | _ :: _, [] => by simp [Value.compareFields, Value.equalsFields]
+  | (k, v) :: as, (k', v') :: bs => by
+    simp [Value.compareFields_cons, Value.equalsFields, Ordering.then_eq_eq, cmpStr_eq_iff,
+      Value.compare_eq_iff v v', Value.compareFields_eq_iff as bs, and_assoc]
+end
+
+
+/-! ### derived laws for values -/
+
+theorem Ordering.eq_of_self_swap {o : Ordering} (h : o = o.swap) : o = .eq := by
+  cases o <;> simp_all
+
+theorem Value.compare_le_trans {a b c : Value} :
+    Value.compare a b ≠ .gt → Value.compare b c ≠ .gt → Value.compare a c ≠ .gt :=
+  (Value.compare_tr a b c).le
+theorem Value.less_iff (a b : Value) : Value.less a b = true ↔ Value.compare a b = .lt := by
+  simp [Value.less]
+theorem Value.equals_refl (a : Value) : Value.equals a a = true :=
+  (Value.compare_eq_iff a a).1 (Value.compare_self a)
+theorem Value.equals_symm (a b : Value) : Value.equals a b = Value.equals b a := by
+  rw [Bool.eq_iff_iff, ← Value.compare_eq_iff, ← Value.compare_eq_iff, Value.compare_swap a b]
+  cases Value.compare a b <;> simp
+
+theorem cmpInt_eq_compare (x y : Int) : cmpInt x y = compare x y := by
+  unfold cmpInt
+  rcases Int.lt_trichotomy x y with h | h | h
+  · rw [if_neg (by omega), if_pos h]; exact (Int.compare_eq_lt.2 h).symm
+  · subst h; simp
+  · rw [if_pos h]; exact (Int.compare_eq_gt.2 h).symm
+
+theorem mul_scale_beq (i j : Int) : (i * scale == j * scale) = (i == j) := by
+  rw [Bool.eq_iff_iff]; simp [mul_scale_inj]
+
+/-- exact numeric value of a number, in float units (2^-1074) -/
+def Value.numv : Value → Option Int
+  | .int i => some (i * scale)
+  | .float u _ => some u
+  | _ => none
+
+theorem numv_compare (a b : Value) (x y : Int) (ha : a.numv = some x) (hb : b.numv = some y) :
+    Value.compare a b = compare x y ∧ Value.equals a b = (x == y) := by
+  rw [← cmpInt_eq_compare]
+  cases a <;> cases b <;> simp [Value.numv] at ha hb <;> subst ha <;> subst hb <;>
+    simp [Value.compare, Value.equals, cmpInt_scale, mul_scale_beq]
+
+
+/-! ### key lists -/
+
+theorem FieldList.compare_eq_iff (a b : FieldList) :
+    FieldList.compare a b = .eq ↔ FieldList.equals a b = true := Value.compareFields_eq_iff a b
+theorem FieldList.compare_swap (a b : FieldList) :
+    FieldList.compare b a = (FieldList.compare a b).swap := Value.compareFields_swap a b
+theorem FieldList.compare_tr (a b c : FieldList) :
+    TrPack (FieldList.compare a b) (FieldList.compare b c) (FieldList.compare a c) :=
+  Value.compareFields_tr a b c
+theorem FieldList.compare_le_trans {a b c : FieldList} :
+    FieldList.compare a b ≠ .gt → FieldList.compare b c ≠ .gt → FieldList.compare a c ≠ .gt :=
+  (FieldList.compare_tr a b c).le
+theorem FieldList.less_iff (a b : FieldList) :
+    FieldList.less a b = true ↔ FieldList.compare a b = .lt := by simp [FieldList.less]
+theorem FieldList.equals_refl (a : FieldList) : FieldList.equals a a = true :=
+  (FieldList.compare_eq_iff a a).1 (Value.compareFields_self a)
+theorem FieldList.equals_symm (a b : FieldList) : FieldList.equals a b = FieldList.equals b a := by
+  rw [Bool.eq_iff_iff, ← FieldList.compare_eq_iff, ← FieldList.compare_eq_iff,
+    FieldList.compare_swap a b]
+  cases FieldList.compare a b <;> simp
+
+/-! ### path elements -/
+
+theorem PE.compare_index (a b : Int) : PE.compare (.index a) (.index b) = cmpInt a b := by
+  unfold PE.compare cmpInt
+  (repeat' split) <;> simp_all <;> omega
+
+theorem PE.compare_swap : ∀ a b : PE, PE.compare b a = (PE.compare a b).swap
+  | .field s, b => by cases b <;> simp [PE.compare, cmpStr_swap s]
+  | .key k, b => by cases b <;> simp [PE.compare, FieldList.compare_swap k]
+  | .value v, b => by cases b <;> simp [PE.compare, Value.compare_swap v]
+  | .index i, b => by
+    cases b <;> (try simp only [PE.compare_index]) <;> simp [PE.compare, cmpInt_swap i]
+  | .invalid, b => by cases b <;> simp [PE.compare]
+
+theorem PE.compare_tr : ∀ a b c : PE, TrPack (PE.compare a b) (PE.compare b c) (PE.compare a c)
+  | .field s, b, c => by
+    cases b <;> cases c <;>
+      simp [PE.compare, TrPack.lt_left, TrPack.gt_left, TrPack.gt_mid, TrPack.lt_lt, cmpStr_tr]
+  | .key k, b, c => by
+    cases b <;> cases c <;>
+      simp [PE.compare, TrPack.lt_left, TrPack.gt_left, TrPack.gt_mid, TrPack.lt_lt,
+        FieldList.compare_tr]
+  | .value v, b, c => by
+    cases b <;> cases c <;>
+      simp [PE.compare, TrPack.lt_left, TrPack.gt_left, TrPack.gt_mid, TrPack.lt_lt,
+        Value.compare_tr]
+  | .index i, b, c => by
+    cases b <;> cases c <;> (try simp only [PE.compare_index]) <;>
+      simp [PE.compare, TrPack.lt_left, TrPack.gt_left, TrPack.gt_mid, TrPack.lt_lt, cmpInt_tr]
+  | .invalid, b, c => by
+    cases b <;> cases c <;>
+      simp [PE.compare, TrPack.lt_left, TrPack.gt_left, TrPack.gt_mid, TrPack.lt_lt]
+    simp [TrPack]
+
+theorem PE.compare_eq_iff : ∀ a b : PE, PE.compare a b = .eq ↔ PE.equals a b = true
+  | .field s, b => by cases b <;> simp [PE.compare, PE.equals, cmpStr_eq_iff]
+  | .key k, b => by cases b <;> simp [PE.compare, PE.equals, FieldList.compare_eq_iff]
+  | .value v, b => by cases b <;> simp [PE.compare, PE.equals, Value.compare_eq_iff]
+  | .index i, b => by
+    cases b <;> (try simp only [PE.compare_index]) <;> simp [PE.compare, PE.equals, cmpInt_eq_iff]
+  | .invalid, b => by cases b <;> simp [PE.compare, PE.equals]
+
+theorem PE.compare_self (a : PE) : PE.compare a a = .eq :=
+  Ordering.eq_of_self_swap (PE.compare_swap a a)
+theorem PE.compare_le_trans {a b c : PE} :
+    PE.compare a b ≠ .gt → PE.compare b c ≠ .gt → PE.compare a c ≠ .gt :=
+  (PE.compare_tr a b c).le
+theorem PE.less_iff (a b : PE) : PE.less a b = true ↔ PE.compare a b = .lt := by simp [PE.less]
+theorem PE.equals_refl (a : PE) : PE.equals a a = true :=
+  (PE.compare_eq_iff a a).1 (PE.compare_self a)
+theorem PE.equals_symm (a b : PE) : PE.equals a b = PE.equals b a := by
+  rw [Bool.eq_iff_iff, ← PE.compare_eq_iff, ← PE.compare_eq_iff, PE.compare_swap a b]
+  cases PE.compare a b <;> simp
+
+
+/-! ### matchers -/
+
+theorem PEMatcher.compare_eq_iff (a b : PEMatcher) :
+    PEMatcher.compare a b = .eq ↔ PEMatcher.equals a b = true := by
+  rcases a with ⟨wa, pa⟩; rcases b with ⟨wb, pb⟩
+  cases wa <;> cases wb <;> simp [PEMatcher.compare, PEMatcher.equals, PE.compare_eq_iff]
+theorem PEMatcher.compare_swap (a b : PEMatcher) :
+    PEMatcher.compare b a = (PEMatcher.compare a b).swap := by
+  rcases a with ⟨wa, pa⟩; rcases b with ⟨wb, pb⟩
+  cases wa <;> cases wb <;> simp [PEMatcher.compare, PE.compare_swap pa pb]
+theorem PEMatcher.compare_tr (a b c : PEMatcher) :
+    TrPack (PEMatcher.compare a b) (PEMatcher.compare b c) (PEMatcher.compare a c) := by
+  rcases a with ⟨wa, pa⟩; rcases b with ⟨wb, pb⟩; rcases c with ⟨wc, pc⟩
+  cases wa <;> cases wb <;> cases wc <;>
+    simp [PEMatcher.compare, TrPack.lt_left, TrPack.gt_left, TrPack.gt_mid, TrPack.lt_lt,
+      PE.compare_tr] <;> simp [TrPack]
+theorem PEMatcher.compare_le_trans {a b c : PEMatcher} :
+    PEMatcher.compare a b ≠ .gt → PEMatcher.compare b c ≠ .gt → PEMatcher.compare a c ≠ .gt :=
+  (PEMatcher.compare_tr a b c).le
+theorem PEMatcher.less_iff (a b : PEMatcher) :
+    PEMatcher.less a b = true ↔ PEMatcher.compare a b = .lt := by
+  rcases a with ⟨wa, pa⟩; rcases b with ⟨wb, pb⟩
+  cases wa <;> cases wb <;> simp [PEMatcher.compare, PEMatcher.less, PE.less_iff]
+theorem PEMatcher.equals_refl (a : PEMatcher) : PEMatcher.equals a a = true :=
+  (PEMatcher.compare_eq_iff a a).1 (Ordering.eq_of_self_swap (PEMatcher.compare_swap a a))
+theorem PEMatcher.equals_symm (a b : PEMatcher) : PEMatcher.equals a b = PEMatcher.equals b a := by
+  rw [Bool.eq_iff_iff, ← PEMatcher.compare_eq_iff, ← PEMatcher.compare_eq_iff,
+    PEMatcher.compare_swap a b]
+  cases PEMatcher.compare a b <;> simp
+
+/-! ### paths -/
+
+theorem Path.compare_cons (a b : PE) (as bs : Path) :
+    Path.compare (a :: as) (b :: bs) = (PE.compare a b).then (Path.compare as bs) := by
+  rw [Path.compare]; cases PE.compare a b <;> rfl
+
+theorem Path.compare_eq_iff : ∀ a b : Path, Path.compare a b = .eq ↔ Path.equals a b = true
+  | [], b => by cases b <;> simp [Path.compare, Path.equals]
+  | _ :: _, [] => by simp [Path.compare, Path.equals]
+  | a :: as, b :: bs => by
+    simp [Path.compare_cons, Path.equals, Ordering.then_eq_eq, PE.compare_eq_iff a b,
+      Path.compare_eq_iff as bs]
+theorem Path.compare_swap : ∀ a b : Path, Path.compare b a = (Path.compare a b).swap
+  | [], b => by cases b <;> simp [Path.compare]
+  | _ :: _, [] => by simp [Path.compare]
+  | a :: as, b :: bs => by
+    simp [Path.compare_cons, Ordering.swap_then, PE.compare_swap a b, Path.compare_swap as bs]
+theorem Path.compare_tr : ∀ a b c : Path,
+    TrPack (Path.compare a b) (Path.compare b c) (Path.compare a c)
+  | [], b, c => by cases b <;> cases c <;> simp [Path.compare, TrPack]
+  | _ :: _, [], c => by cases c <;> simp [Path.compare, TrPack]
+  | _ :: _, _ :: _, [] => by simp [Path.compare, TrPack]
+  | a :: as, b :: bs, c :: cs => by
+    simp only [Path.compare_cons]
+    exact (PE.compare_tr a b c).then (Path.compare_tr as bs cs)
+theorem Path.compare_le_trans {a b c : Path} :
+    Path.compare a b ≠ .gt → Path.compare b c ≠ .gt → Path.compare a c ≠ .gt :=
+  (Path.compare_tr a b c).le
+theorem Path.equals_refl (a : Path) : Path.equals a a = true :=
+  (Path.compare_eq_iff a a).1 (Ordering.eq_of_self_swap (Path.compare_swap a a))
+theorem Path.equals_symm (a b : Path) : Path.equals a b = Path.equals b a := by
+  rw [Bool.eq_iff_iff, ← Path.compare_eq_iff, ← Path.compare_eq_iff, Path.compare_swap a b]
+  cases Path.compare a b <;> simp
 
 end SMD
